@@ -5,7 +5,9 @@ use std::collections::BTreeSet;
 use syn::visit::{self, Visit};
 
 /// builtin methods that mutate their receiver
-pub const MUTATING_METHODS: &[&str] = &["resize", "copy_from_slice", "push", "extend_from_slice", "clear", "truncate"];
+pub const MUTATING_METHODS: &[&str] = &["resize", "copy_from_slice", "push", "extend_from_slice", "clear", "truncate", "reverse"];
+/// methods that mutate their receiver and yield a value (handled in expression position)
+pub const MUTATING_VALUE_METHODS: &[&str] = &["next"];
 
 pub struct Assigned<'a> {
     scopes: Vec<BTreeSet<String>>,
@@ -100,7 +102,7 @@ impl<'ast, 'a> Visit<'ast> for Assigned<'a> {
     }
     fn visit_expr_method_call(&mut self, m: &'ast syn::ExprMethodCall) {
         let name = m.method.to_string();
-        if MUTATING_METHODS.contains(&name.as_str()) || self.mut_methods.iter().any(|x| *x == name) {
+        if MUTATING_METHODS.contains(&name.as_str()) || MUTATING_VALUE_METHODS.contains(&name.as_str()) || self.mut_methods.iter().any(|x| *x == name) {
             self.touch(&m.receiver);
         }
         visit::visit_expr_method_call(self, m);
